@@ -268,7 +268,11 @@ class C04(Prop):
                 elif coll == "iter":
                     arg = {"$iter": [E(x) for x in ks]}
                 else:
-                    arg = E(ks + [ks[0]])
+                    # a key listed more than once, anywhere in the collection (also ahead of other keys)
+                    dk = list(ks)
+                    for _d in range(rng.choice([1, 1, 2])):
+                        dk.insert(rng.randint(0, len(dk)), rng.choice(ks))
+                    arg = E(dk)
                 st = {"t": "call", "m": m, "a": [arg], "k": {}, "coll": coll, "keys": [E(x) for x in ks]}
             net = gen.gen_net(rng, 0.5)
             if net:
